@@ -12,6 +12,7 @@ PROP = {
              "lifetime (29-32 s, 31 s + cool-down, 200 s). Non-trivial: a sequence uses up its attempts (in-condition response answered without a retry right after a "
              "retry verdict) while another sequence's last verdict is `retry` (mid-way). distinct = canonical JSON of configuration + history"),
     "assumptions": [
+        "unit TestPolicyRetryThroughDispatcher routes the policy histories through runner.DispatchOnResponse (provider responses) and runner.DispatchOnRequest (responses a fixed_response remedy gives by itself, which run through the response-side remedies); one endpoint per status, the retry remedy is global",
         "attempts >= 1 (flows mode rejects smaller values at load time; policy mode does not validate and asks for one retry with attempts=0 - outside the generated domain)",
         "the first response of a logical call always carries the sequence id as its transaction id (HAProxy assigns the unique id to both when the client sends no x-lunar-sequence-id)",
         "where the statement is silent the oracle admits both readings: a new call on an id whose previous call was abandoned mid-way may continue the count or start afresh; an unsolicited in-condition response on a forgotten sequence may or may not be retried; policy-mode state may be forgotten once a write of it is >= 31 s old (30 s transaction timeout + 1 s buffer, the remedy's minimum lifetime) and need never be",
@@ -21,6 +22,7 @@ PROP = {
     "units": [
         {"pkg": "c17", "test": "TestFlowsRetryBound", "quick": 1500, "thorough": 20000, "shards": 16},
         {"pkg": "c17", "test": "TestPolicyRetryBound", "quick": 6000, "thorough": 100000, "shards": 16},
+{"pkg": "c17", "test": "TestPolicyRetryThroughDispatcher", "quick": 6000, "thorough": 100000, "shards": 16},
         {"pkg": "c17", "test": "TestFixedHistories", "kind": "plain"},
         {"pkg": "c17", "test": "TestWitnessFlowsCounterSurvivesOutOfConditionResponse", "kind": "plain"},
         {"pkg": "c17", "test": "TestWitnessPolicyRetriedTransactionWithSequenceIDAsID", "kind": "plain"},
